@@ -10,6 +10,8 @@ func init() { register("C06", checkC06) }
 
 // C06 — PNFT authorization: only current owners act on denoms and tokens.
 func checkC06(p *Prog, r *Report) {
+	checkNoDroppedErrors(p, r, "C06", "x/pnft", func(fn *ssa.Function) bool { return InPkgs(fn, "x/pnft") })
+	checkNoNilWrap(p, r, "C06", "x/pnft", func(fn *ssa.Function) bool { return InPkgs(fn, "x/pnft") })
 	r.Explain = "Decided statically: D1 every x/nft mutator call and every raw write to the pnft store reached (call tree depth <= 3, arguments substituted so that all terms are in the handler's vocabulary) from a PNFT message handler is dominated along the whole call chain by the fact actor == <owner lookup>(ids).Owner; the mutated resource is the one looked up (same ids, or the class built from the denom returned by that very lookup call); the owner lookups read x/nft's stored class / owner record for their id parameters; D2 the actor is the request field GetSigners returns on every path, CreateDenom records its signer as owner; D3 x/nft mutators are called only from the pnft keeper, Update/Batch* have no call site, and the checker's mutator table covers every x/nft keeper method that can reach a store write. The pnft store key is handed to the pnft keeper constructor only."
 	r.NotDec = []string{"x/nft keeper internals (owner index maintenance)", "authz", "signature verification"}
 	r.Trusted = []string{"cosmos-sdk v0.47.12 x/nft keeper"}
